@@ -256,3 +256,66 @@ func c17Range(K int) {
 
 func H_c17_range_q() { c17Range(4) }
 func H_c17_range_t() { c17Range(8) }
+
+// c17Asym: a long set against a short one (the shape any size-based fast path would key on):
+// exact lengths LA and LB, all elements symbolic.  IntersectionSize in both argument orders
+// equals the number of common elements (a formula), Intersection/Union/SetMinus/XOR have the
+// right membership for a symbolic probe, the method Union agrees with the function.
+func c17Asym(LA, LB int) {
+	mk := func(name string, l int) SortedInts {
+		s := make(SortedInts, l)
+		for i := range s {
+			s[i] = rt.Int(name)
+			if i > 0 {
+				rt.Assume(s[i-1] < s[i])
+			}
+		}
+		return s
+	}
+	a, b := mk("a", LA), mk("b", LB)
+	a0, b0 := c17Copy(a), c17Copy(b)
+	common := 0
+	for _, y := range b {
+		hit := false
+		for _, x := range a {
+			hit = rt.Or(hit, x == y)
+		}
+		common += rt.B2I(hit)
+	}
+	rt.Check(IntersectionSize(a, b) == common, "IntersectionSize(long, short) wrong")
+	rt.Check(IntersectionSize(b, a) == common, "IntersectionSize(short, long) wrong")
+	v := rt.Int("probe")
+	inA, inB := c17In(a, v), c17In(b, v)
+	switch rt.Choice("fn", 5) {
+	case 0:
+		r := Union(a, b)
+		c17Sorted(r, "Union")
+		rt.Check(c17In(r, v) == rt.Or(inA, inB), "Union: wrong membership")
+	case 1:
+		r := Intersection(b, a)
+		c17Sorted(r, "Intersection")
+		rt.Check(len(r) == common, "Intersection: wrong size")
+		rt.Check(c17In(r, v) == rt.And(inA, inB), "Intersection: wrong membership")
+	case 2:
+		r := SetMinus(a, b)
+		c17Sorted(r, "SetMinus")
+		rt.Check(c17In(r, v) == rt.And(inA, rt.Not(inB)), "SetMinus: wrong membership")
+	case 3:
+		r := XOR(b, a)
+		c17Sorted(r, "XOR")
+		rt.Check(c17In(r, v) == (inA != inB), "XOR: wrong membership")
+	default:
+		r := c17Copy(a)
+		rs := SortedInts(r)
+		rs.Union(b)
+		c17Sorted(rs, "method Union")
+		rt.Check(len(rs) == LA+LB-common, "method Union: wrong size")
+		rt.Check(c17In(rs, v) == rt.Or(inA, inB), "method Union: wrong membership")
+	}
+	c17Same(a, a0, "long/short")
+	c17Same(b, b0, "long/short")
+	rt.Reach("end")
+}
+
+func H_c17_asym_q() { c17Asym(7+rt.Choice("la", 2), 2) }
+func H_c17_asym_t() { c17Asym(12+rt.Choice("la", 2), 2+rt.Choice("lb", 2)) }
